@@ -152,6 +152,9 @@ class ConstBitStream(Bits):
 
         """
         s = Bits.__and__(self, bs)
+        if s is self:
+            # self & self returns self for immutable types; don't reset the operand's own position.
+            s = self.__copy__()
         s._pos = 0
         return s
 
@@ -164,6 +167,9 @@ class ConstBitStream(Bits):
 
         """
         s = Bits.__or__(self, bs)
+        if s is self:
+            # self | self returns self for immutable types; don't reset the operand's own position.
+            s = self.__copy__()
         s._pos = 0
         return s
 
